@@ -4,12 +4,17 @@ import (
 	"io"
 	"net"
 	"net/http"
+	"strconv"
 )
 
 // HTTPTarget: minimal recording HTTP/1.1 target for the isolation runs.  Logs the three places
 // a per-shot token travels in (query parameter tok, header X-Tok, body) of every request.
 type HTTPTarget struct {
-	rec  *Rec
+	// FailShare: answer a share of the requests (decided by the request's token) so that configured
+	// postprocessors fail at run time: token%5 == 0 -> 500 + a body that is not JSON;
+	// token%5 == 1 -> 2xx JSON without the asserted key.  Other requests: 200..203 by token.
+	FailShare bool
+	rec       *Rec
 	srv  *http.Server
 	Addr string
 }
@@ -30,10 +35,37 @@ func (t *HTTPTarget) Stop() { _ = t.srv.Close() }
 
 func (t *HTTPTarget) handle(w http.ResponseWriter, r *http.Request) {
 	body, _ := io.ReadAll(r.Body)
+	status, fail := 200, ""
+	if t.FailShare {
+		if n, err := strconv.Atoi(r.URL.Query().Get("tok")); err == nil {
+			status = 200 + n%4
+			switch n % 5 {
+			case 0:
+				status, fail = 500, "not-json"
+			case 1:
+				fail = "no-key"
+			}
+		}
+	}
+	defer func() {
+		w.Header().Set("X-Echo", r.Header.Get("X-Tok"))
+		switch fail {
+		case "not-json":
+			w.Header().Set("Content-Type", "text/plain")
+			w.WriteHeader(status)
+			_, _ = w.Write([]byte("oops <html> not json"))
+		case "no-key":
+			w.Header().Set("Content-Type", "application/json")
+			w.WriteHeader(status)
+			_, _ = w.Write([]byte(`{"other":1}`))
+		default:
+			w.Header().Set("Content-Type", "application/json")
+			w.WriteHeader(status)
+			_, _ = w.Write([]byte(`{"result":"ok","items":[1,2,3]}`))
+		}
+	}()
 	t.rec.Emit(E{"ev": "Recv", "proto": "http", "method": r.Method, "path": r.URL.Path,
 		"q": r.URL.Query().Get("tok"), "h": r.Header.Get("X-Tok"), "h2": r.Header.Get("X-Tok2"), "body": string(body),
-		"toks": []string{r.URL.Query().Get("tok"), r.Header.Get("X-Tok"), r.Header.Get("X-Tok2"), string(body)}})
-	w.Header().Set("Content-Type", "application/json")
-	w.Header().Set("X-Echo", r.Header.Get("X-Tok"))
-	_, _ = w.Write([]byte(`{"result":"ok","items":[1,2,3]}`))
+		"toks": []string{r.URL.Query().Get("tok"), r.Header.Get("X-Tok"), r.Header.Get("X-Tok2"), string(body)},
+		"status": status, "fail": fail})
 }
